@@ -23,28 +23,21 @@ out of balance, TODO(331) branch) and is then approved with a small amount; (2) 
 `prune_invoices` drops together with its payment entry while its HTLC is still in the commitments, and
 that is then approved and paid again on another channel.  `C06_partial` proves the conservation law
 for all histories in which a hash is newly approved only while nothing is outgoing in flight for it.
+
+Definitions used by the statements (in `Lemmas/Payments.lean`):
+  `run n ops : Option Node`      — execute a request list (`none` = the implementation panicked);
+  `FreshRun n ops`               — every *new* approval along the run happens while nothing is outgoing
+                                   in flight for that hash (`FreshApproval`);
+  `Conserved n`                  — ∀ h inv, n.invoices h = some inv →
+                                   totalOut n h * 1000 ≤ totalIn n h * 1000 + inv.amount + n.pol.maxFee;
+  `Inv n`                        — ledger synchronisation (node's incoming ≤ ledger incoming for every hash;
+                                   ledger outgoing ≤ node's outgoing for every approved hash), `Conserved`,
+                                   persisted invoices = invoices, finite support;
+  `overpaid n h : Bool`          — decidable negation of the inequality for one hash.
+Only property theorems (and their non-vacuity examples) live in this file.
 -/
 namespace VlsModel.Props.C06
 open VlsModel VlsModel.Payments
-
-/-- run a request list; `none` = the implementation panicked on the way -/
-def run : Node → List Op → Option Node
-  | n, [] => some n
-  | n, op :: ops => match n.step op with
-    | none => none
-    | some (n', _) => run n' ops
-
-/-- every *new* approval along the run happens while nothing is outgoing in flight for that hash -/
-def FreshRun : Node → List Op → Prop
-  | _, [] => True
-  | n, op :: ops => FreshApproval n op ∧ match n.step op with
-    | none => True
-    | some (n', _) => FreshRun n' ops
-
-/-- the conservation inequality, in msat, on the ghost ledger of the current commitments -/
-def Conserved (n : Node) : Prop :=
-  ∀ h inv, n.invoices h = some inv →
-    totalOut n h * 1000 ≤ totalIn n h * 1000 + inv.amount + n.pol.maxFee
 
 /-- **Per-request preservation** of the node-wide invariant (ledger synchronisation + conservation):
     every request — counterparty signing (validate+apply), holder validation (validate only),
@@ -53,20 +46,6 @@ def Conserved (n : Node) : Prop :=
 theorem C06_step {n n' : Node} {op : Op} {acc : Bool} (hI : Inv n) (hf : FreshApproval n op)
     (hs : n.step op = some (n', acc)) : Inv n' :=
   step_preserves hI hf hs
-
-theorem inv_run (ops : List Op) : ∀ (n n' : Node), Inv n → FreshRun n ops → run n ops = some n' → Inv n' := by
-  induction ops with
-  | nil => intro n n' hI _ hr; simp only [run] at hr; cases hr; exact hI
-  | cons op ops ih =>
-    intro n n' hI hf hr
-    simp only [run] at hr
-    simp only [FreshRun] at hf
-    cases hs : n.step op with
-    | none => simp [hs] at hr
-    | some r =>
-      obtain ⟨n1, acc⟩ := r
-      simp only [hs] at hr hf
-      exact ih n1 n' (C06_step hI hf.1 hs) hf.2 hr
 
 /-- **C06 (conservation), proved part.**  For every number of channels, policy and request history
     (commitment updates on any channels in any order, multi-part splits, retries, approvals, preimages,
@@ -81,11 +60,6 @@ theorem C06_partial (nch : Nat) (pol : Policy) (ops : List Op) (n : Node)
 /-- The literal statement of C06 (no freshness hypothesis). -/
 def C06_main_statement : Prop :=
   ∀ (nch : Nat) (pol : Policy) (ops : List Op) (n : Node), run (Node.init nch pol) ops = some n → Conserved n
-
-def overpaid (n : Node) (h : Hash) : Bool :=
-  match n.invoices h with
-  | some inv => decide (totalOut n h * 1000 > totalIn n h * 1000 + inv.amount + n.pol.maxFee)
-  | none => false
 
 def pol0 : Policy := ⟨222000, 10, 6⟩
 
@@ -114,16 +88,6 @@ theorem witness331_overpaid : (run (Node.init 3 pol0) witness331).map (overpaid 
 
 theorem witnessPrune_overpaid : (run (Node.init 2 pol0) witnessPrune).map (overpaid · 0) = some true := by
   decide +kernel
-
-theorem not_conserved_of_overpaid {n : Node} {h : Hash} (ho : overpaid n h = true) : ¬ Conserved n := by
-  intro hc
-  unfold overpaid at ho
-  cases hi : n.invoices h with
-  | none => simp [hi] at ho
-  | some inv =>
-    simp only [hi, decide_eq_true_eq] at ho
-    have := hc h inv hi
-    omega
 
 /-- **The literal statement is false for the code**: approval does not look at what is already in flight. -/
 theorem C06_main_false : ¬ C06_main_statement := by
@@ -156,24 +120,6 @@ theorem C06_unbacked_validate {n : Node} {c : Nat} {hEff cEff : Info}
   by_cases hk : h ∈ keys hEff cEff (n.chans c).hcur (n.chans c).ccur
   · exact checkHash_ok_unseen (validate_ok hv h hk) hi hp
   · have := not_mem_keys hk; omega
-
-theorem validate_of_cpSign {n n' : Node} {c : Nat} {r : Bool} {info : Info}
-    (h : n.cpSign c r info = (n', .ok)) : validate n c (n.chans c).hcur info = .ok := by
-  unfold Node.cpSign at h
-  dsimp only at h
-  cases hv : validate n c (n.chans c).hcur info with
-  | ok => rfl
-  | err => exfalso; simp only [hv] at h; repeat (first | (split at h) | (simp at h))
-  | panic => exfalso; simp only [hv] at h; repeat (first | (split at h) | (simp at h))
-
-theorem validate_of_hValidate {n n' : Node} {c : Nat} {r : Bool} {info : Info}
-    (h : n.hValidate c r info = (n', .ok)) : validate n c info (n.chans c).ccur = .ok := by
-  unfold Node.hValidate at h
-  dsimp only at h
-  cases hv : validate n c info (n.chans c).ccur with
-  | ok => rfl
-  | err => exfalso; simp only [hv] at h; repeat (first | (split at h) | (simp at h))
-  | panic => exfalso; simp only [hv] at h; repeat (first | (split at h) | (simp at h))
 
 theorem C06_unbacked {n n' : Node} {c : Nat} {r : Bool} {info : Info} (h : Hash)
     (hi : n.invoices h = none) (hp : n.payments h = none) :
